@@ -1,2 +1,3 @@
+pub mod kwprogs;
 pub mod soup;
 pub mod svgen;
